@@ -430,15 +430,15 @@ def _make_ack(env: Env, idx: int, cfg: Dict[str, Any]) -> Any:
     fail = cfg["msgs"][idx - 1].get("ackfail", False)
     if cfg.get("ackasync"):
         async def aack() -> None:
-            env.rec("ack", m=CUR_M.get(), x=idx)
+            env.rec("ack", m=idx, x=CUR_M.get())
             if fail:
                 raise ConnectionError("ack failed")
             await asyncio.sleep(0)
-            env.rec("ack_e", m=CUR_M.get(), x=idx)
+            env.rec("ack_e", m=idx, x=CUR_M.get())
         return aack
 
     def ack() -> None:
-        env.rec("ack", m=CUR_M.get(), x=idx)
+        env.rec("ack", m=idx, x=CUR_M.get())
         if fail:
             raise ConnectionError("ack failed")
     return ack
